@@ -282,6 +282,14 @@ pub fn gen_case(r: &mut Rng, out: &mut String, with_queries: bool) {
     let nkeys = r.range(1, 6) as usize;
     let nops = r.range(5, 40);
     writeln!(out, "new b0").unwrap();
+    if r.chance(1, 6) {
+        // the history starts from a value of the shared catalogue (gen/zoo.rs) instead of the empty bitmap
+        super::zoo::zoo_build(r, out, "b0");
+        writeln!(out, "dump b0").unwrap();
+        if with_queries {
+            queries(r, out, "b0", nkeys);
+        }
+    }
     if r.chance(1, 10) {
         // dozens of tiny chunks around the ones the history works on
         writeln!(out, "extend b0{}", many_chunk_values(r)).unwrap();
